@@ -440,7 +440,7 @@ def str_calls(strings, full):
         out += [("parse_int", s, []), ("parse_bigint", s, []), ("parse_bool", s, []), ("parse_byte", s, [])]
         if s not in ("inf", "nan", "-inf"):
             out.append(("parse_float", s, []))
-        for radix in ((1, 2, 10, 16, 36, 37) if full else (1, 2, 16, 36, 37)):
+        for radix in ((-36, -16, -2, -1, 0, 1, 2, 10, 16, 36, 37) if full else (-16, -2, 0, 1, 2, 16, 36, 37)):
             out += [("parse_int_radix", s, [I(radix)]), ("parse_bigint_radix", s, [I(radix)])]
     # receivers that carry the marker `0x` / `0b`: what `"0x10".parse_int()` should be (16, 10 or nil) is not specified and
     # stays outside the domain, but a text that is not a number in ANY reading - the marker repeated, the marker alone, the
@@ -518,12 +518,12 @@ def random_case(draw):
         s = draw(st.text(alphabet="abcXY z01-+." if g.chance(70) else "abXé日😀 z", max_size=8))
         n = len(s.encode("utf-8"))
         method = g.choice(["substring", "delete", "insert", "split", "index", "index_of", "contains", "replace", "reverse", "chars", "repeat", "len",
-                           "parse_int", "parse_float", "parse_int_radix", "parse_byte", "parse_bigint"])
+                           "parse_int", "parse_float", "parse_int_radix", "parse_bigint_radix", "parse_byte", "parse_bigint"])
         ix = lambda: I(g.int(-1, n + 1))
         args = {"substring": lambda: [ix(), ix()], "delete": lambda: [ix(), ix()], "insert": lambda: [draw(st.text(alphabet="ab", max_size=2)), ix()],
                 "split": lambda: [ix()], "index": lambda: [ix()], "index_of": lambda: [draw(st.text(alphabet="abcXY zé", max_size=2))],
                 "contains": lambda: [draw(st.text(alphabet="abcXY z", max_size=2))], "replace": lambda: [draw(st.text(alphabet="abcXY z", min_size=1, max_size=2)), draw(st.text(alphabet="ab", max_size=2))],
-                "repeat": lambda: [I(g.int(-1, 4))], "parse_int_radix": lambda: [I(g.int(0, 38))]}.get(method, lambda: [])()
+                "repeat": lambda: [I(g.int(-1, 4))], "parse_int_radix": lambda: [I(g.int(-38, 38))], "parse_bigint_radix": lambda: [I(g.int(-38, 38))]}.get(method, lambda: [])()
         if method.startswith("parse") and g.chance(12):
             s = g.choice(["0x", "0x0x", "0b0b", "0x0x0x", "0b0x"]) + s      # repeated markers: never a number
         if marker_ambiguous((method, s, args)):
